@@ -102,7 +102,7 @@ func selfTestDriver(r *runner) {
 		if err != nil {
 			panic(err)
 		}
-		lines = append(lines, "blk "+x.blockArgs(u, b))
+		lines = append(lines, "blk "+x.blockArgs(u, b, parentRoot(g.Bundles, b)))
 		want = append(want, "ok")
 	}
 	lines = append(lines, "basecheck", "bogus request")
